@@ -137,7 +137,14 @@ def genpos_case(rng, i):
     S, C, kinds = polys.gen_genpos_case(rng)
     reg = polys.REGIMES[i % len(polys.REGIMES)] if not rng.chance(1, 3) else polys.REGIMES[0]
     S2, C2, tf = polys.apply_regime(rng, S, C, reg)
-    return dict(S=S2, O=[], C=C2, kind='genpos:%s/%s' % kinds, regime=reg[0], geom='genpos')
+    name = reg[0]
+    if reg[1] >= 8 and rng.chance(1, 2):
+        # full-precision coordinates: jitter every vertex by up to k/4 (general position is re-decided by the Coq predicate)
+        j = reg[1] // 4
+        S2 = [[(x + rng.range(-j, j), y + rng.range(-j, j)) for x, y in p] for p in S2]
+        C2 = [[(x + rng.range(-j, j), y + rng.range(-j, j)) for x, y in p] for p in C2]
+        name += '~'
+    return dict(S=S2, O=[], C=C2, kind='genpos:%s/%s' % kinds, regime=name, geom='genpos')
 
 
 def synthetic_ring(rng):
@@ -152,6 +159,36 @@ def synthetic_ring(rng):
         a, b = p[k], p[(k + 1) % len(p)]
         p.insert(k + 1, (2 * b[0] - a[0], 2 * b[1] - a[1]) if rng.chance(1, 2) else ((a[0] + b[0]) // 2, (a[1] + b[1]) // 2))
     return p
+
+
+def edges_overlap(sol):
+    """two solution edges (same or different paths) are collinear and share a segment of positive length"""
+    es = [e for p in sol for e in polys.cyc_edges(p)]
+    for i in range(len(es)):
+        a, b = es[i]
+        for j in range(i + 1, len(es)):
+            c, d = es[j]
+            if polys.cross(a, b, c) != 0 or polys.cross(a, b, d) != 0:
+                continue
+            ax = 0 if a[0] != b[0] else 1
+            lo1, hi1 = sorted((a[ax], b[ax])); lo2, hi2 = sorted((c[ax], d[ax]))
+            if max(lo1, lo2) < min(hi1, hi2):
+                return True
+    return False
+
+
+def union_key(sol, rs):
+    """classifier of a Union-idempotence failure (all of them violate the clause; the suffix names the family)"""
+    if edges_overlap(sol):
+        return 'geom.union-not-idempotent.overlapping-edges'
+    allv = [v for p in sol for v in p]
+    if len(set(allv)) < len(allv):
+        return 'geom.union-not-idempotent.reversed-touching' if rs else 'geom.union-not-idempotent.touching'
+    return 'geom.union-not-idempotent'
+
+
+def vertex_far_key(c):
+    return 'geom.vertex-far' if maxabs_case(c) <= 2 ** 53 else 'geom.vertex-far.beyond-2^53'
 
 
 # ----------------------------------------------------------------------------- protocol helpers
@@ -267,15 +304,16 @@ def eval_one(env, c, ct, fr, pc, rs, build='plain', geom=None, want_tie=True):
     if codes is None:
         raise vf.Infra('oracle ALL failed: ' + o[:300])
     for code, idx in codes:
-        keys.add(KEYS[code])
-        det.setdefault('paths', {})[KEYS[code]] = idx
+        key = vertex_far_key(c) if code == 6 else KEYS[code]
+        keys.add(key)
+        det.setdefault('paths', {})[key] = idx
     if geom and r['closed']:
         for fr2 in (1, 0):
             exe = env.exes.get('bool.' + build) or env.exes['bool.plain']
             q = vf.run_lines(exe, ['BOOL 2 %d %d %d 0 %s 0 0' % (fr2, pc, rs, vf.fmt_paths(r['closed']))], timeout=60)
             u = parse_bool(q.stdout.strip()) if q.returncode == 0 else None
             if u is None or vf.canon_paths(u['closed']) != vf.canon_paths(r['closed']):
-                keys.add('geom.union-not-idempotent')
+                keys.add(union_key(r['closed'], rs))
                 det['union'] = dict(fill=FR[fr2], result=u['closed'] if u else None)
     return keys, det
 
@@ -476,7 +514,8 @@ def phase_stream(ctx, env, cases, label, combos_per_case=None, builds=('plain',)
             nontrivial.add((ci, ct, fr))
             ctx.hist('solution_paths', min(len(outs[k]['closed']), 8))
         for code, idx in codes:
-            found.setdefault(KEYS[code], (k, '%s: solution path %d = %s' % (KEYS[code], idx, outs[k]['closed'][idx][:12])))
+            key = vertex_far_key(cases[ci]) if code == 6 else KEYS[code]
+            found.setdefault(key, (k, '%s: solution path %d = %s' % (key, idx, outs[k]['closed'][idx][:12])))
     # Union idempotence on the geometric cases
     ul, uidx = [], []
     for k, j in enumerate(jobs):
@@ -490,7 +529,7 @@ def phase_stream(ctx, env, cases, label, combos_per_case=None, builds=('plain',)
             u = parse_bool(line)
             ctx.count('union_idempotence_checks')
             if u is None or vf.canon_paths(u['closed']) != vf.canon_paths(outs[k]['closed']):
-                found.setdefault('geom.union-not-idempotent',
+                found.setdefault(union_key(outs[k]['closed'], jobs[k][4]),
                                  (k, 'Union/%s of the solution returns a different path set (%d paths -> %s)' % (FR[fr2], len(outs[k]['closed']), len(u['closed']) if u else 'crash')))
     for c in cases:
         ctx.hist('regime', c['regime']); ctx.hist('kind', c['kind'].split('-d')[0][:24])
